@@ -117,6 +117,12 @@ func faultKinds(skip int) []faultKind {
 		{name: "status-404-with-valid-answer-body", signal: true, transport: "StatusKeepBody", status: 404},
 		{name: "status-304-with-valid-answer-body", signal: true, transport: "StatusKeepBody", status: 304},
 		{name: "body-read-error", signal: true, transport: "ReadErr"},
+		// what can follow a complete, well-formed answer on the wire
+		{name: "connection-lost-after-the-complete-answer", signal: true, transport: "ReadErrEnd"},
+		{name: "answer-followed-by-garbage", signal: true, whole: func(b []byte) []byte {
+			return append(append([]byte{}, b...), []byte("\n<html><body>502 Bad Gateway</body></html>")...)
+		}},
+		{name: "answer-sent-twice", signal: true, whole: func(b []byte) []byte { return append(append([]byte{}, b...), b...) }},
 		{name: "not-json", signal: true, whole: func([]byte) []byte { return []byte("<html>bad gateway</html>") }},
 		{name: "json-not-array", signal: true, whole: func(b []byte) []byte { return []byte(`{"data":{"x":1}}`) }},
 		{name: "array-too-short", signal: true, arr: func(a []interface{}) ([]interface{}, bool) {
@@ -325,6 +331,8 @@ func scenFLT(s *sched.Sim, cfg Config, res *Result) {
 				return &simnet.Fault{Kind: "StatusKeepBody", Status: k.status}
 			case "ReadErr":
 				return &simnet.Fault{Kind: "ReadErr", At: 5}
+			case "ReadErrEnd":
+				return &simnet.Fault{Kind: "ReadErr", At: 1 << 30}
 			}
 			if k.clientGivesUp {
 				// every call of this request in flight or still to come fails with it
